@@ -29,11 +29,14 @@ pub struct Config {
     /// after an exhaustive exploration ask the solver whether any input of the domain lies on no explored
     /// path (independent check of the explorer itself); only for harnesses without sqrt / uninterpreted terms
     pub closure: bool,
+    /// pick the next work item at random (seeded) instead of depth first: for budgeted runs on instances that
+    /// cannot close, so that the explored paths are spread over the path tree (bug hunting)
+    pub random_pop: Option<u64>,
 }
 
 impl Default for Config {
     fn default() -> Config {
-        Config { name: String::new(), max_paths: 200_000, max_secs: 120.0, query_timeout_ms: 5_000, solver: "z3".into(), max_violations: 1, n_samples: 3, first_inputs: vec![], verbose: false, frontier_target: 0, initial_work: vec![], n_witnesses: 0, closure: false }
+        Config { name: String::new(), max_paths: 200_000, max_secs: 120.0, query_timeout_ms: 5_000, solver: "z3".into(), max_violations: 1, n_samples: 3, first_inputs: vec![], verbose: false, frontier_target: 0, initial_work: vec![], n_witnesses: 0, closure: false, random_pop: None }
     }
 }
 
@@ -202,10 +205,12 @@ pub fn explore(cfg: &Config, sym: &dyn Fn(), native: Option<&dyn Fn()>) -> Repor
     let mut solver = Solver::new(&cfg.solver, cfg.query_timeout_ms);
     let mut work: std::collections::VecDeque<Work> = if cfg.initial_work.is_empty() { vec![Work { inputs: cfg.first_inputs.clone(), bound: 0, prefix_hash: 0 }].into() } else { cfg.initial_work.clone().into() };
     let mut frontier_reached = false;
+    let mut rng_state: u64 = cfg.random_pop.unwrap_or(0) ^ 0x9E37_79B9_7F4A_7C15;
     let mut seen_flips: HashSet<(u64, u64)> = HashSet::new();
     let mut seen_paths: HashSet<u64> = HashSet::new();
     let mut locs: std::collections::BTreeSet<(String, u32)> = Default::default();
     let mut budget_hit = false;
+    let mut skipped_flips: u64 = 0;
 
     loop {
         if cfg.frontier_target > 0 && work.len() >= cfg.frontier_target {
@@ -213,6 +218,14 @@ pub fn explore(cfg: &Config, sym: &dyn Fn(), native: Option<&dyn Fn()>) -> Repor
             break;
         }
         // breadth first while building a frontier (balanced shards), depth first otherwise
+        if let Some(seed) = cfg.random_pop {
+            if work.len() > 1 {
+                rng_state = rng_state.wrapping_mul(6364136223846793005).wrapping_add(seed | 1);
+                let k = ((rng_state >> 33) as usize) % work.len();
+                let last = work.len() - 1;
+                work.swap(k, last);
+            }
+        }
         let w = match if cfg.frontier_target > 0 { work.pop_front() } else { work.pop_back() } {
             Some(w) => w,
             None => break,
@@ -293,7 +306,13 @@ pub fn explore(cfg: &Config, sym: &dyn Fn(), native: Option<&dyn Fn()>) -> Repor
             let name = em.boolean(a, ev.cond, &mut defs);
             solver.send(&defs);
             let last_assume_failed = assume_failed && j == n - 1;
-            let flippable = j >= bound && (ev.kind == EvKind::Branch || last_assume_failed);
+            let mut flippable = j >= bound && (ev.kind == EvKind::Branch || last_assume_failed);
+            if flippable && t0.elapsed().as_secs_f64() > cfg.max_secs {
+                // budget exhausted in the middle of a run: the remaining flips of this run stay undone
+                budget_hit = true;
+                skipped_flips += 1;
+                flippable = false;
+            }
             if flippable {
                 let key = (hashes[j], mix(a.bools[ev.cond as usize].2, !ev.outcome as u64));
                 if seen_flips.insert(key) {
@@ -508,7 +527,7 @@ pub fn explore(cfg: &Config, sym: &dyn Fn(), native: Option<&dyn Fn()>) -> Repor
             break;
         }
     }
-    rep.pending_work = if frontier_reached { 0 } else { work.len() as u64 };
+    rep.pending_work = if frontier_reached { 0 } else { work.len() as u64 } + skipped_flips;
     if frontier_reached {
         rep.frontier = work.iter().cloned().collect();
     }
